@@ -45,7 +45,7 @@ var specs = map[string]spec{
 			{name: "queueiterate", test: "TestC08QueueIterate", shards: [2]int{2, 4}, count: [2]int{30000, 1000000}, secs: [2]int{600, 7200}, cores: 4},
 			{name: "queuerace", test: "TestC08QueueIterate", race: true, shards: [2]int{1, 2}, count: [2]int{3000, 60000}, secs: [2]int{600, 3600}, cores: 4},
 		},
-		rule:        "Programs of the profiles PRESSURELOAD, MEM, SHADOWSLOW, MEMSAFE, REG (results may be wrong for known reasons: determinism is independent of correctness); each case is judged on 6 of the 33 configurations with one drawn relation against the first run R0 of a fresh machine and a freshly parsed program: repeat x5 in-process; run after 1-3 unrelated machines; 6 machines concurrently in goroutines plus two noise machines of other variants; re-use of one parsed Application for a second and third run on the same configuration and after a run on another configuration; re-use after a run of the same parsed program from another state; a chain (one parsed program first serves a forwarding variant at parallelism 3-4 from another state and from the case's state, then every forwarding variant at parallelism 1 and 2, each compared with its run on a fresh parse); a child process (the test binary re-executed on the case); queueiterate = the goroutine interleavings of the queue iterator the control units use, sampled by 30 000 (10^6) repetitions on 4 OS threads under garbage-collection preemption, and (job queuerace) the same loop under the Go race detector, which reports an unsynchronised access between the iterator's producer goroutine and the consumer even when the harmful interleaving did not occur. Compared: outcome class and, for runs that return, cycle count, 32 registers and all memory. Non-trivial = the run has a memory access or a register dependence at distance <= 4; distinct by (text, registers, memory image, relation, configurations).",
+		rule:        "Programs of the profiles PRESSURELOAD, MEM, SHADOWSLOW, MEMSAFE, REG (results may be wrong for known reasons: determinism is independent of correctness); each case is judged on 6 of the 33 configurations with one drawn relation against the first run R0 of a fresh machine and a freshly parsed program: repeat x5 in-process; run after 1-3 unrelated machines; 6 machines concurrently in goroutines plus two noise machines of other variants; re-use of one parsed Application for a second and third run on the same configuration and after a run on another configuration; re-use after a run of the same parsed program from another state; a chain (one parsed program first serves a forwarding variant at parallelism 3-4 in runs that are abandoned — with the division-by-zero error, through a probe 'div zero, zero, s6' that half of the programs carry and s6 = 0, and from another state, which may end in an error, a crash or an exhausted budget — and after each of them MVP-1..6.0 at parallelism 1-2 from the case's state; then a complete run, then every forwarding variant at parallelism 1 and 2; each judged run is compared with its run on a fresh parse); a child process (the test binary re-executed on the case); queueiterate = the goroutine interleavings of the queue iterator the control units use, sampled by 30 000 (10^6) repetitions on 4 OS threads under garbage-collection preemption, and (job queuerace) the same loop under the Go race detector, which reports an unsynchronised access between the iterator's producer goroutine and the consumer even when the harmful interleaving did not occur. Compared: outcome class and, for runs that return, cycle count, 32 registers and all memory. Non-trivial = the run has a memory access or a register dependence at distance <= 4; distinct by (text, registers, memory image, relation, configurations).",
 		assumptions: []string{"the text of a Go panic is not part of the claim (a run that does not return has no registers, memory or cycle count)", "a budget overrun is an outcome class like any other: 'hangs once, finishes once' is a violation, 'always hangs' is C07's"},
 	},
 	"C12": {
